@@ -14,7 +14,7 @@ H = 'html5ever/src/tree_builder/mod.rs'
 TY = 'html5ever/src/tree_builder/types.rs'
 IF = 'html5ever/src/tokenizer/interface.rs'
 
-MUTATING = ('push', 'pop', 'remove_from_stack', 'generate_implied_end_tags', 'generate_implied_end_except', 'pop_until_current',
+MUTATING = ('insert_element', 'push', 'pop', 'remove_from_stack', 'generate_implied_end_tags', 'generate_implied_end_except', 'pop_until_current',
             'pop_until', 'pop_until_named', 'expect_to_close', 'close_p_element', 'close_p_element_in_button_scope',
             'reconstruct_active_formatting_elements', 'process_end_tag_in_body', 'adoption_agency', 'insert_at', 'insert_appropriately')
 READING = ('html_elem_named', 'elem_in', 'current_node', 'current_node_in', 'current_node_named', 'in_scope', 'in_scope_named',
@@ -29,6 +29,8 @@ REWRITES = [
     Rewrite('R2-generics', r'InsertionPoint<Handle>', 'InsertionPoint'),
     Rewrite('R2-generics', r'enum Bookmark<Handle>', 'pub enum Bookmark'),
     Rewrite('R2-generics', r'NodeOrText<Handle>', 'NodeOrText'),
+    Rewrite('R2-generics', r'pub\(crate\) enum ProcessResult<Handle>', 'pub enum ProcessResult'),
+    Rewrite('R2-generics', r'ProcessResult<Handle>', 'ProcessResult'),
     Rewrite('R-vis', r'(?m)^(\s+)(\w+): ', r'\1pub \2: ', only=('TreeBuilder',)),
     Rewrite('R-vis', r'\bpub\(crate\)\s+', 'pub '),
     # R1: interior mutability made explicit - only the functions that write through a RefCell take `&mut self`
@@ -113,6 +115,8 @@ PARTS = [
     Item(TY, 'enum', 'SplitStatus', attrs=DERIVE),
     Item(TY, 'enum', 'FormatEntry'),
     Item(TY, 'enum', 'InsertionPoint'),
+    Item(TY, 'enum', 'Token'),
+    Item(TY, 'enum', 'ProcessResult'),
     Item(H, 'enum', 'Bookmark'),
     Item(H, 'struct', 'TreeBuilder'),
     Prelude('stack.spec.rs'),
@@ -127,6 +131,8 @@ PARTS = [
                      'insert_appropriately')] + [
     # proved in unit u_aaa (same generated file, modes exchanged)
     tb('adoption_agency', mode='assume'),
+    # proved in unit u_fcontent
+    tb('insert_element', mode='assume'),
     Raw('} // verus!\nfn main() {}'),
 ]
 DROPS = ['Handle / Sink type parameters (model types: element names are an uninterpreted function of the handle, same_node is handle identity)',
